@@ -8,7 +8,11 @@ PATCH=$1; shift
 D=$(mktemp -d /var/tmp/mut.XXXXXX)
 trap 'rm -rf "$D"' EXIT
 mkdir -p $D/repo && cd /repo && git archive HEAD | tar -x -C $D/repo
-cd $D/repo && git init -q . && git apply --whitespace=nowarn "$PATCH" || { echo "PATCH-FAILED"; exit 3; }
+cd $D/repo && git init -q . || exit 3
+case "$PATCH" in
+  *.py) /venv/bin/python "$PATCH" $D/repo || { echo "PATCH-FAILED"; exit 3; } ;;
+  *) git apply --whitespace=nowarn "$PATCH" || { echo "PATCH-FAILED"; exit 3; } ;;
+esac
 if [ "${SKIP_TESTS:-0}" != 1 ]; then
   /verif/tools/baseline.py $D/repo | head -5
 fi
